@@ -1,4 +1,5 @@
 from collections.abc import Sequence
+from math import prod
 
 from xdsl.dialects import arith, builtin, linalg
 from xdsl.dialects.builtin import StringAttr
@@ -90,7 +91,10 @@ class SNAXPHSAccelerator(SNAXAccelerator, SNAXPollingBarrier3, SNAXStreamer):
     def _generate_stream_setup_vals(
         self, op: snax_stream.StreamingRegionOp
     ) -> Sequence[tuple[Sequence[Operation], SSAValue]]:
-        loop_bound = arith.ConstantOp.from_int_and_width(op.stride_patterns.data[0].upper_bounds.data[0], 32)
+        # the number of steps of the streams: the product of all temporal bounds
+        loop_bound = arith.ConstantOp.from_int_and_width(
+            prod(bound.data for bound in op.stride_patterns.data[0].upper_bounds), 32
+        )
         generic = op.regions[0].ops.first
         assert isinstance(generic, linalg.GenericOp) or isinstance(generic, dart.GenericOp)
 
